@@ -58,10 +58,12 @@ Definition spell (t : token) (s : str) : Prop :=
   end.
 
 (* how a spelling of the token starts *)
-Inductive fclass := FAlpha | FDigit | FChar (c : Z).
+(* a letter or '_' whose lower-case form is [lc]; a digit; the character [c] *)
+Inductive fclass := FAlpha (lc : Z) | FDigit | FChar (c : Z).
 Definition first_class (t : token) : fclass :=
   match t with
-  | TKw _ | TId _ => FAlpha
+  | TKw k => FAlpha (lower (hd 0 (kw_spelling k)))
+  | TId n => FAlpha (hd 0 n)
   | TInt _ | TDate _ _ _ => FDigit
   | TDec lead _ _ => if lead then FDigit else FChar 46
   | TStr dq _ => FChar (if dq then 34 else 39)
@@ -86,10 +88,11 @@ Definition clash_char (t : token) (c : Z) : bool :=
   end.
 Definition clash (t : token) (f : fclass) : bool :=
   match f with
-  | FAlpha => match t with
-              | TKw _ | TId _ | TTable _ | TPlaceS | TPlaceN _ | TDec _ _ _ | TDate _ _ _ | TInt _ | TPercent => true
-              | _ => false
-              end
+  | FAlpha lc => match t with
+                 | TKw _ | TId _ | TTable _ | TPlaceS | TPlaceN _ | TDec _ _ _ | TDate _ _ _ | TInt _ => true
+                 | TPercent => lc =? 115                      (* %s *)
+                 | _ => false
+                 end
   | FDigit => match t with
               | TKw _ | TId _ | TTable _ | TPlaceS | TPlaceN _ | TDec _ _ _ | TDate _ _ _ | TInt _ | TDot => true
               | _ => false
